@@ -1,6 +1,6 @@
 (* Runner operations for the resolver family C01-C07 (ops 100-199). *)
 From Coq Require Import List Bool NArith ZArith.
-From PV Require Import Base.Str Base.Value Base.Wire Resolver.Consts Resolver.Text Resolver.Resolve Resolver.Template Resolver.Creds Run.RState.
+From PV Require Import Base.Str Base.Value Base.Wire Resolver.Consts Resolver.Text Resolver.Resolve Resolver.Template Resolver.Creds Resolver.Spec Resolver.SubFacts Resolver.FixFacts Run.RState.
 Import ListNotations.
 Local Open Scope N_scope.
 
@@ -11,6 +11,13 @@ Definition conds_of (v : value) : str -> res bool :=
            | Some _ => Err EUndefined
            | None => Ok false
            end.
+
+(* first binding wins, as in [lookup]; the wire cannot carry shadowed duplicates (a Python dict would merge them) *)
+Fixpoint dedup_first (seen : list str) (d : list (str * value)) : list (str * value) :=
+  match d with
+  | [] => []
+  | (k, v) :: r => if mem_str k seen then dedup_first seen r else (k, v) :: dedup_first (k :: seen) r
+  end.
 
 Definition run01 (st : rstate) (op : N) (arg : value) : option (rstate * value) :=
   match op, arg with
@@ -26,10 +33,17 @@ Definition run01 (st : rstate) (op : N) (arg : value) : option (rstate * value) 
                          end))
   | 104, VList [pseudo; decls; extra] =>
       Some (st, enc_res (match bind_params (dict_of pseudo) (dict_of decls) (dict_of extra) with
-                         | Ok ps => Ok (VDict ps) | Err e => Err e end))
+                         | Ok ps => Ok (VDict (dedup_first [] ps)) | Err e => Err e end))
   | 105, VList [metadata] =>
       Some (st, enc_res (match has_hc metadata with Ok b => Ok (VBool b) | Err e => Err e end))
   | 106, VList [login; metadata] =>
       Some (st, enc_res (match has_hc_user login metadata with Ok b => Ok (VBool b) | Err e => Err e end))
+  | 107, VList [ps; v] =>
+      Some (st, VList [VBool (no_fn_dict v); VBool (rendered (dict_of ps) v)])
+  | 108, VList [ps; maps; v] =>
+      Some (st, VList [VBool (fn_keys_alone v);
+                       VBool (forallb (fun kv => nodict (snd kv)) (dict_of ps));
+                       VBool (forallb (fun m => forallb (fun t => forallb (fun l => nodict (snd l)) (dict_of (snd t)))
+                                                        (dict_of (snd m))) (dict_of maps))])
   | _, _ => None
   end.
